@@ -98,8 +98,8 @@ impl PolicyClient for NoClient {
 // was dropped by the harness is recorded separately, which tells two pending callers apart.
 pub(crate) const NONE: u8 = 0;
 pub(crate) const OK: u8 = 200;
-static mut ANSWER: [[u8; 2]; 4] = [[0; 2]; 4];
-static mut ANSWERS: [[u8; 2]; 4] = [[0; 2]; 4];
+static mut ANSWER: [[u8; 2]; 5] = [[0; 2]; 5];
+static mut ANSWERS: [[u8; 2]; 5] = [[0; 2]; 5];
 
 pub(crate) trait EnvErr {
     const SLOT: usize;
@@ -109,6 +109,7 @@ pub(crate) const SCHEDULE: usize = 0;
 pub(crate) const VALIDATE: usize = 1;
 pub(crate) const CONSTS: usize = 2;
 pub(crate) const RUN: usize = 3;
+pub(crate) const CANCEL: usize = 4;
 pub(crate) const E_INVALID_STATE: u8 = 1;
 pub(crate) const E_LEADER_MISMATCH: u8 = 2;
 pub(crate) const E_HASH_MISMATCH: u8 = 3;
@@ -148,6 +149,12 @@ impl EnvErr for ConstsError {
         }
     }
 }
+impl EnvErr for CancelError {
+    const SLOT: usize = CANCEL;
+    fn code(&self) -> u8 {
+        E_OTHER
+    }
+}
 impl EnvErr for RunError {
     const SLOT: usize = RUN;
     fn code(&self) -> u8 {
@@ -184,8 +191,8 @@ impl<E: EnvErr> EnvAnswerOk for Ret<E> {
 
 fn reset_answers() {
     unsafe {
-        ANSWER = [[0; 2]; 4];
-        ANSWERS = [[0; 2]; 4];
+        ANSWER = [[0; 2]; 5];
+        ANSWERS = [[0; 2]; 5];
         ENV_LEADER_PROCEEDS = false;
         ENV_OUTPUTS = 0;
         ENV_OUTPUT_WAS_ERR = false;
@@ -229,6 +236,23 @@ impl<F: std::future::Future> EnvNow for F {
         match f.as_mut().poll(&mut cx) {
             std::task::Poll::Ready(v) => v,
             std::task::Poll::Pending => panic!("environment future is not ready"),
+        }
+    }
+}
+
+/// One poll; `None` while the future is pending (the cut then stops at this await).
+pub(crate) trait EnvTry {
+    type Out;
+    fn env_try(self) -> Option<Self::Out>;
+}
+impl<F: std::future::Future> EnvTry for F {
+    type Out = F::Output;
+    fn env_try(self) -> Option<F::Output> {
+        let mut f = std::pin::pin!(self);
+        let mut cx = std::task::Context::from_waker(std::task::Waker::noop());
+        match f.as_mut().poll(&mut cx) {
+            std::task::Poll::Ready(v) => Some(v),
+            std::task::Poll::Pending => None,
         }
     }
 }
@@ -363,9 +387,8 @@ fn fake_consts_request(from: usize) -> ConstsRequest {
     ConstsRequest { from, computation_id: Uuid::nil(), consts: HashMap::new() }
 }
 
-fn executing() -> PolicyStateKind<NoClient> {
-    PolicyStateKind::Executing { cancel: Arc::new(Notify::new()) }
-}
+// `executing()` (a machine whose MPC task has been spawned) is generated from the field list of
+// PolicyStateKind::Executing in the current source: see segs_state.rs.
 
 include!("/verif/harness/segs_state.rs");
 
@@ -815,4 +838,44 @@ fn c17_consts_rpc_failure_with_output_destination() {
     consts_task(true);
     kani::cover!(unsafe { ENV_CONSTS_FAIL }, "failure_reachable");
     kani::cover!(unsafe { !ENV_CONSTS_FAIL }, "success_reachable");
+}
+
+// ------------------------------------------------------------------------------------------ cancel() while executing (C15)
+
+/// C15 - cancel() is processed right after the MPC task was spawned: the task has not been polled
+/// yet, so it has neither registered for the cancel notification nor acknowledged anything.
+/// cancel() must not complete (answer Ok) before the task acknowledges, and the cancellation
+/// must not be lost: the task's first look at the cancel notification finds it.
+#[kani::proof]
+#[kani::unwind(4)]
+#[kani::stub(std::fmt::format, no_format)]
+fn c15_cancel_before_the_mpc_task_was_polled() {
+    let cancel = Arc::new(Notify::new());
+    let cancelled = Arc::new(Notify::new());
+    reset_answers();
+    let done = seg_sc_cancel_executing(Arc::clone(&cancel), Arc::clone(&cancelled), open_ret());
+    assert!(answer(CANCEL, false) == (NONE, 0), "C15:cancel:not-answered-before-the-mpc-task-acknowledged");
+    assert!(done.is_none(), "C15:cancel:waits-for-the-mpc-task-to-acknowledge");
+    // the spawned task's select! now polls cancel.notified() for the first time
+    let seen = cancel.notified().env_try().is_some();
+    assert!(seen, "C15:cancel:the-cancellation-reaches-a-task-that-registers-later");
+    kani::cover!(true, "reachable");
+    std::mem::forget((cancel, cancelled));
+}
+
+/// Counterpart: the task has already sent its one notification and acknowledged (it finished, or
+/// it was cancelled); cancel() completes and answers Ok exactly once.
+#[kani::proof]
+#[kani::unwind(4)]
+#[kani::stub(std::fmt::format, no_format)]
+fn c15_cancel_after_the_mpc_task_acknowledged() {
+    let cancel = Arc::new(Notify::new());
+    let cancelled = Arc::new(Notify::new());
+    // what the task does behind its select!
+    cancelled.notify_one();
+    reset_answers();
+    let done = seg_sc_cancel_executing(Arc::clone(&cancel), Arc::clone(&cancelled), open_ret());
+    assert!(done.is_some() && answer(CANCEL, false) == (OK, 1), "C15:cancel:completes-with-Ok-once-the-task-has-acknowledged");
+    kani::cover!(true, "reachable");
+    std::mem::forget((cancel, cancelled));
 }
